@@ -42,3 +42,14 @@ CHECKS["C19"] = {
          "6 paths, 3 ids + None, both case modes; structural invariants (acyclic, parent/child consistent, exact id index, id uniqueness, id<->path inverse) and a dictionary "
          "model are checked after every call, also after calls the cache rejects.",
  "technique": "bounded exhaustive exploration; call kind/path/id/type are z3 integer choices enumerated by solver-decided branching over the real HierarchicalCache; structural walk + dictionary model oracle"}
+CHECKS["C11"] = {
+ "text": "Exhaustive bounded exploration with solver-enumerated choices (M2) on the real SyncState: all 2-operation (thorough 3) sequences of raw events (both id styles, prior ids, "
+         "stale/duplicate), field assignments, discard, split and side-state moves, plus every state the engine reaches in all 2-operation C01 histories; after each step: every live "
+         "entry reachable by id and path, no stale slot, one owner per id, pending set exact.",
+ "technique": "bounded exhaustive exploration; state-level operations and engine schedules are z3 integer choices enumerated by solver-decided branching over the real SyncState/engine; structural invariant oracle"}
+CHECKS["C08"] = {
+ "text": "Exhaustive bounded exploration with solver-enumerated choices (M2) using the real msgpack codec: (a) every combination of field value shapes (7 hash shapes, unicode/integer ids "
+         "and paths, all existence values incl. corrupt-over-each, all ignore reasons) round-trips through serialize -> storage -> SyncState load field by field, legacy rows load as "
+         "documented; (b) every public attribute assignment followed by commit leaves the stored row equal to the entry; (c) after EVERY engine step of all 2-operation C01 histories the "
+         "decoded storage equals the live entries and a reloaded state gives the same lookups and pending set.",
+ "technique": "bounded exhaustive exploration; field shapes, assignments, user operations and schedules are z3 integer choices enumerated by solver-decided branching over the real codec/state/engine; per-step storage-vs-memory oracle"}
